@@ -107,6 +107,7 @@ impl<M: SpaceModel> Sweep for SpaceSweep<M> {
             let jobs: Vec<(usize, usize)> = (0..frontier.len()).flat_map(|i| (0..nact).map(move |a| (i, a))).collect();
             let next_job = AtomicUsize::new(0);
             let results: Mutex<Vec<(Vec<usize>, Step)>> = Mutex::new(vec![]);
+            let hb = ctx.heartbeat();
             std::thread::scope(|sc| {
                 for _ in 0..threads.min(jobs.len().max(1)) {
                     sc.spawn(|| {
@@ -117,6 +118,9 @@ impl<M: SpaceModel> Sweep for SpaceSweep<M> {
                                 break;
                             }
                             let (i, a) = jobs[j];
+                            if let Some(s) = hb {
+                                s.seq.fetch_add(1, Ordering::Relaxed);
+                            }
                             let mut h = frontier[i].clone();
                             h.push(a);
                             let r = crate::engine::guard(|| m.run(&h));
@@ -143,6 +147,9 @@ impl<M: SpaceModel> Sweep for SpaceSweep<M> {
             let mut next = vec![];
             for (h, step) in res {
                 transitions += 1;
+                if let Some(s) = hb {
+                    s.seq.fetch_add(1, Ordering::Relaxed);
+                }
                 let desc = describe(m, &h);
                 ctx.force_case(&desc);
                 ctx.acc.evals += 1;
